@@ -38,6 +38,7 @@ Events == Traces[tid].events
 
 Consume(e) ==
   \/ e.ev = "add"         /\ Add(e.s, e.k, e.v, e.draws, <<>>)
+  \/ e.ev = "add_big"     /\ AddBig(e.s, e.k, e.v, e.vbig, e.draws, <<>>)
   \/ e.ev = "update_list"  /\ UpdateList(e.s, e.ks, e.draws, <<>>)
   \/ e.ev = "update_dict"  /\ UpdateDict(e.s, e.kvs, e.draws, <<>>)
   \/ e.ev = "add_ngram"    /\ AddNgram(e.s, e.key, e.n, e.draws, <<>>)
@@ -51,7 +52,7 @@ Consume(e) ==
 Matches(e) ==
   /\ \A s \in 1..Len(e.post) : sk'[s] = e.post[s]
   /\ \A s \in 1..Len(e.ptrs) : rnd'[s].ptr = e.ptrs[s]          \* rand_ptr of every sketch
-  /\ e.ev \in {"add", "update_list", "update_dict", "add_ngram", "update_ngram"} =>
+  /\ e.ev \in {"add", "add_big", "update_list", "update_dict", "add_ngram", "update_ngram"} =>
                      /\ op'.refill = e.refilled                  \* replenished exactly when exhausted
                      /\ e.refilled => e.fresh_ok                 \* with a fresh batch in [0,1)
                      /\ Len(e.draws) >= op'.draws
